@@ -90,15 +90,16 @@ prefix of the sequence presented after. -/
 def C06_append_sound_full : Prop :=
   ∀ (t0 : T) (batch : List Change) (r : Nat),
     t0.root = some r → r ∈ t0.att.map (·.id) → WFAtt t0.att → t0.unatt = [] →
+    -- previous ids of attached changes are attached, or (below a reduced root) gone for good
+    (∀ d ∈ t0.att, ∀ p ∈ d.prevs, t0.has p = true ∨ ∀ c ∈ batch, c.id ≠ p) →
     (iter r t0.att).getLast? = some t0.lastIter →
     (add t0 batch).mode = .append →
     ∃ tail, iter r (add t0 batch).tree.att = iter r t0.att ++ tail
 
 /-- **append_sound_partial**: proved from the verdict logic of `add` (`appendOk`: every attached batch element
 was reached by the walk from the previous last iterated head) and `append_graph`.
-Named gap (`add_appends`): that the wait-list `addAll`/`attach` of the model only *appends* batch members to
-the attachment list and keeps it well-formed is assumed here (`hatt`, `hnews`, `hwf`); the harness compares
-the model's `add` with the real `Tree.Add` on arbitrary DAGs and batches. -/
+The hypotheses `hatt`, `hnews`, `hwf` (the wait-list `addAll`/`attach` only *appends* batch members and keeps
+the attachment list well-formed) are discharged by `add_appends` in `append_sound` below. -/
 theorem append_sound_partial (t0 : T) (batch news : List Change) (r : Nat)
     (hr : r ∈ t0.att.map (·.id))
     (hatt : (addTree t0 batch).att = t0.att ++ news) (hnews : ∀ n ∈ news, n ∈ batch)
@@ -127,6 +128,12 @@ theorem append_sound_partial (t0 : T) (batch news : List Change) (r : Nat)
   obtain ⟨x, hx1, hx2⟩ := hd _ this
   have : x = t0.lastIter := by simpa using hx1
   exact this ▸ hx2
+
+/-- **append_sound**: the full statement holds. -/
+theorem append_sound : C06_append_sound_full := by
+  intro t0 batch r hroot hr hwf hun hclosed hlast hmode
+  obtain ⟨news, hatt, hnews, hwf'⟩ := add_appends t0 batch hwf hun (by simp [hroot]) hclosed
+  exact append_sound_partial t0 batch news r hr hatt hnews hwf' hlast hmode
 
 /-- non-vacuity of the verdict: an `Append` and a `Rebuild` on the same tree -/
 example :
